@@ -27,6 +27,13 @@
 //     which object each entry holds and the current name of every held object
 //     (model.keyOf); swept around every state of the full pool and crossed with
 //     everything else to closure in a pool of three descriptors (see main);
+//   - handler CONFORMANCE (conform.go): how the handler value relates to the service interface of the
+//     descriptor -- 8 interfaces (0-3 methods, embedded, a later revision, unexported methods of this
+//     and of another package) x 38 handler values (every method name present but one signature
+//     different, nearly-right names, a field instead of a method, value / pointer receivers, promoted
+//     methods, non-struct types, ...); ops conf(I,H):<name>; oracle = the Go type assertion h.(I). Full
+//     matrix x pool descriptor x prefix state; representatives swept around the BFS states, as the
+//     refused registration of the liveness probes, and pairs of attempts in sequence;
 //   - liveness after a REFUSED registration: (prefix state x registration attempt that is
 //     refused there x the first operation made on the object afterwards), every such probe
 //     on a fresh object in a child process; an operation that never returns after the
@@ -840,6 +847,7 @@ type problem struct {
 	mut    bool   // seen only after a mutate op of the path (see absorb / runPath)
 	subj   string // the service name the problem is about ("" = none in particular)
 	done   bool   // classified by absorb
+	step   int    // index of the op at which (or in the reads after which) it was seen (set by runPath)
 }
 
 const afterMutation = "after-result-mutation:"
@@ -1000,9 +1008,9 @@ func (x *pctx) register(c carrier, m model, op, kind, name string, o *dobj, tag,
 		// the parameter that matters is the relation between handler and interface, not the name
 		switch {
 		case !cc.implements:
-			detail = cc.relation
+			detail = dominantAtom(cc.relation)
 		case !dup:
-			detail = "implements:" + cc.iface.name + "<-" + cc.hd.name
+			detail = "implements:" + cc.hd.name
 		}
 	}
 	// class of the refusal (if it is one): why the registration has to be / may be refused
@@ -1429,6 +1437,9 @@ const infoRepeats = 64
 // confQuickGood: how many of the implementing representatives the quick tier sweeps around every BFS state
 const confQuickGood = 4
 
+// confQuickDepth: ... and the largest number of registrations of a state around which it sweeps the conformance ops
+const confQuickDepth = 2
+
 // stateOracle evaluates every read operation in the current state.
 func (x *pctx) stateOracle(c carrier, m model) (probs []problem) {
 	if k := x.implKey(c, m); k != m.key() {
@@ -1495,6 +1506,7 @@ type result struct {
 	names          []string // the model's registrations after the path
 	edited         bool     // a descriptor-edit op was applied (not skipped as disabled)
 	refusals       []refusal
+	firstBad       int // index of the first op at (or in the reads after) which a problem was seen; -1: none
 }
 
 // runPath replays ops on a fresh carrier (and a fresh reference server); the
@@ -1510,6 +1522,16 @@ func runPath(j job) (res result) {
 	x.m = m
 	x.trace = j.trace
 	x.light = j.light
+	res.firstBad = -1
+	marked := 0
+	noteBad := func(i int) {
+		for ; marked < len(res.probs); marked++ {
+			res.probs[marked].step = i
+		}
+		if res.firstBad < 0 && len(res.probs) > 0 {
+			res.firstBad = i
+		}
+	}
 	for i, op := range j.ops {
 		if x.trace != nil {
 			x.trace(fmt.Sprintf("A %d %s", i, op))
@@ -1524,6 +1546,7 @@ func runPath(j job) (res result) {
 			x.bareAfter = true
 		}
 		res.probs = append(res.probs, x.applyOp(c, m, op, i)...)
+		noteBad(i)
 		x.bareBefore, x.bareAfter = false, false
 		if j.endAtRegister && i == len(j.ops)-1 {
 			return
@@ -1533,6 +1556,7 @@ func runPath(j job) (res result) {
 				x.trace(fmt.Sprintf("O %d", i))
 			}
 			res.probs = append(res.probs, x.absorb(x.stateOracle(c, m))...)
+			noteBad(i)
 		}
 	}
 	if len(j.ops) == 0 {
@@ -1604,6 +1628,43 @@ func runAll(n int, mk func(i int) job) []result {
 	return out
 }
 
+func hasConfOp(ops []string) bool {
+	for _, op := range ops {
+		if isConfKind(opKind(op)) {
+			return true
+		}
+	}
+	return false
+}
+
+// firstFailure: the problems seen at the first op of the path that showed any
+func firstFailure(probs []problem) []problem {
+	if len(probs) == 0 {
+		return probs
+	}
+	first := probs[0].step
+	for _, p := range probs {
+		if p.step < first {
+			first = p.step
+		}
+	}
+	var out []problem
+	for _, p := range probs {
+		if p.step == first {
+			out = append(out, p)
+		}
+	}
+	return out
+}
+
+func kindsOf(ps []confPair) []string {
+	out := make([]string, 0, len(ps))
+	for _, p := range ps {
+		out = append(out, p.kind())
+	}
+	return out
+}
+
 func opKind(op string) string {
 	if i := strings.IndexByte(op, ':'); i >= 0 {
 		return op[:i]
@@ -1672,6 +1733,12 @@ func main() {
 
 	reported := map[string]bool{}
 	reportJob := func(j job, probs []problem) {
+		if hasConfOp(j.ops) {
+			// on a path of the handler-conformance dimension only the FIRST op that shows a problem is reported
+			// (with the reads made after it): what follows a registry that is already wrong says nothing new,
+			// and would be named after whatever was tried next
+			probs = firstFailure(probs)
+		}
 		for _, pr := range probs {
 			cl, what := pr.render()
 			fp := "C15|" + j.carrier + "|" + cl + "|" + pr.detail
@@ -1741,6 +1808,17 @@ func main() {
 		os.Exit(2)
 	}
 	confIll, confGood := confRepresentatives(confPairs)
+	if os.Getenv("VERIF_C15_CONFDUMP") != "" { // diagnostic: the matrix as the checker sees it
+		for _, p := range confPairs {
+			fmt.Fprintf(os.Stderr, "conformance: %-8s %-10s implements=%-5v %s\n", p.iface, p.handler, p.implements, p.relation)
+		}
+		for _, p := range confIll {
+			fmt.Fprintf(os.Stderr, "conformance: representative (refuse) %s  %s\n", p.kind(), p.relation)
+		}
+		for _, p := range confGood {
+			fmt.Fprintf(os.Stderr, "conformance: representative (accept) %s\n", p.kind())
+		}
+	}
 	confReps := append(append([]confPair{}, confIll...), confGood...)
 	confProbeMaxRegs := 1
 	if rep.Tier == "thorough" {
@@ -1924,9 +2002,9 @@ func main() {
 		counts         map[string]int
 	}
 	var spaces []space
-	confSweepPairs := confReps
+	confSweepPairs, confSweepDepth := confReps, maxDepth
 	if rep.Tier != "thorough" {
-		confSweepPairs = append(append([]confPair{}, confIll...), confGood[:confQuickGood]...)
+		confSweepPairs, confSweepDepth = append(append([]confPair{}, confIll...), confGood[:confQuickGood]...), confQuickDepth
 	}
 	for _, cn := range carrierNames {
 		regOps, readOps, mutOps := opsFor(cn)
@@ -2015,6 +2093,9 @@ func main() {
 			var todo []work
 			for ni, nd := range frontier {
 				for _, op := range ops {
+					if depth > confSweepDepth && isConfKind(opKind(op)) {
+						continue // (quick tier) the conformance ops are swept around the states near the empty one only
+					}
 					if opEnabled(op, nd.names) {
 						todo = append(todo, work{ni, op})
 					}
@@ -2227,7 +2308,7 @@ func main() {
 
 	// family 3, handler conformance: every TWO registration attempts  conf(I1,H1):A ; conf(I2,H2):X  with
 	// X = A or another name B, the first pair over the representatives (thorough: over all pairs on the
-	// HandlerMap, over all implementing pairs on the transports), the second over ALL pairs: a verdict on
+	// HandlerMap, to which the transports delegate), the second over ALL pairs: a verdict on
 	// one (interface, handler) pair must not depend on what was offered or accepted before (same interface
 	// with another handler, same handler type with another interface, ...). Light state oracle after the
 	// second attempt; each attempt's own contract (panic or not, registry state) is checked as always.
@@ -2239,11 +2320,8 @@ func main() {
 		a, b := pool[1].name, pool[3].name
 		firsts := confReps
 		if rep.Tier == "thorough" {
-			firsts = nil
-			for _, p := range confPairs {
-				if cn == "HandlerMap" || p.implements {
-					firsts = append(firsts, p)
-				}
+			if cn == "HandlerMap" {
+				firsts = confPairs
 			}
 		}
 		var js []job
@@ -2257,7 +2335,9 @@ func main() {
 		results := runAll(len(js), func(i int) job { return js[i] })
 		for i, res := range results {
 			confSequences++
-			if len(res.probs) > 0 {
+			if len(res.probs) > 0 && res.firstBad != 0 {
+				// (a problem of the FIRST attempt is the matrix case of that pair on name A in the empty registry,
+				// reported there; what follows a registry that is already wrong says nothing new)
 				reportJob(js[i], res.probs)
 			}
 		}
@@ -2265,7 +2345,7 @@ func main() {
 			fmt.Fprintf(os.Stderr, "timing: %s sequences family 3 (conformance) done at %.1fs (%d)\n", cn, time.Since(t0).Seconds(), confSequences)
 		}
 	}
-	sequences += confSequences + confEvals
+	sequences += confSequences
 
 	nilTreatment := "refused by panicking"
 	switch {
@@ -2277,7 +2357,7 @@ func main() {
 	os.Exit(rep.Finish("model_checking", map[string]interface{}{
 		"states":                        states,
 		"transitions":                   transitions,
-		"traces_validated_against_impl": traces + sequences + probesRun,
+		"traces_validated_against_impl": traces + sequences + probesRun + confEvals,
 		"liveness_probes": map[string]interface{}{
 			"grammar":                        "carrier x prefix state (every set of at most max_prefix_registrations pool names, each held with a pointer or a typed-nil pointer handler) x R (every registration attempt the model refuses, or may refuse, in that state: 6 handler kinds x every pool name with a fresh descriptor object, and share-<kind>:<src>><new> for the share kinds) x F (the first operation made on the object after R: info | foreach | query of every pool name and of the unknown name | each of the 6 x names registration ops; after a share-R: info | foreach | query src / new / unknown | reg of the first unregistered name | reg of src)",
 			"probes":                         len(probes),
@@ -2294,6 +2374,24 @@ func main() {
 			"hang_guard_s":                   hangGuard.Seconds(),
 			"hang_criteria":                  "the child's Go runtime reports that all goroutines are asleep (exact), or the child prints nothing for hang_guard_s",
 			"control":                        "the same sequence up to the op that hung, without the refused registrations, in a child process of its own; violation only if it completes, INCONCLUSIVE (exit 2) otherwise",
+		},
+		"handler_conformance": map[string]interface{}{
+			"grammar":            "op conf(I,H):<pool name> = a fresh descriptor object built from the pool entry with HandlerType (*I)(nil), registered with handler value H. I over service_interfaces, H over handler_values (conform.go: exact / superset / proper subsets of the method names; every name present but one signature different in parameter type, result type, number of results, arity, variadic, wider parameter, defined-vs-alias type; name differing in case; unexported namesake; func-typed field of that name; value vs pointer receivers as value, pointer and typed-nil pointer; methods promoted through an embedded pointer, value, interface; non-struct type; unexported interface method of this / of another package). MATRIX: every pair x every pool descriptor of the carrier x prefix state (empty | another name registered | the name registered with a pointer handler | with a typed-nil pointer handler), full state oracle after every op. SWEEP: the representative pairs on every pool name around the states of the full-pool BFS (see sweep_*), full state oracle, target not expanded. SEQUENCES: conf(I1,H1):A ; conf(I2,H2):X, X in {A, B}, first pair over sequence_first_pairs, second over all pairs, light state oracle at the end. LIVENESS PROBES: R = every refused representative on every pool name in the prefix states of at most probe_max_prefix_registrations registrations x every F.",
+			"oracle":             "accepted iff the Go type assertion h.(I) holds (runtime itab construction, not package reflect) and the name is free; otherwise refused by a panic that leaves every read unchanged; an accepted pair is registered with the reference grpc.Server too and is then subject to every read oracle",
+			"service_interfaces": len(confIfaces),
+			"handler_values":     len(confHandlers),
+			"pairs":              len(confPairs),
+			"pairs_implementing": confImplementing,
+			"pairs_not_implementing_by_what_is_wrong": confRelations,
+			"representatives_refused":                 kindsOf(confIll),
+			"representatives_accepted":                kindsOf(confGood),
+			"matrix_cases":                            confEvals,
+			"sweep_pairs":                             kindsOf(confSweepPairs),
+			"sweep_max_registrations_of_state":        confSweepDepth,
+			"sweeps":                                  confSweeps,
+			"sequences":                               confSequences,
+			"sequence_first_pairs":                    map[string]string{"quick": "the representatives", "thorough": "all pairs on HandlerMap, the representatives on the transports"},
+			"probe_max_prefix_registrations":          confProbeMaxRegs,
 		},
 		"bfs_paths_replayed":                traces,
 		"registration_sequences":            sequences,
@@ -2317,9 +2415,9 @@ func main() {
 		"mutation_probes_that_wrote":        mutProbesWriting,
 		"fresh_nil_handler_registrations":   map[string]interface{}{"accepted": nilAcc, "refused": nilRef, "treatment": nilTreatment},
 		"reference_grpc_servers_built":      atomic.LoadInt64(&refServers),
-		"evaluations":                       traces + sequences + probesRun,
+		"evaluations":                       traces + sequences + probesRun + confEvals,
 		"distinct_nontrivial":               len(nontrivial),
-		"rule":                              "LIVENESS PROBES (child processes, see liveness_probes): every (carrier, prefix state of <= max_prefix_registrations registrations, registration attempt R that is refused there, first operation F after R); non-trivial when R really panicked, the panic was recovered and F was then made as the first call on the object (distinct by carrier, state, R, F); F and the reads after it must return and answer as the model says. THEN BFS over (carrier x set of (registered name, kind of handler held: pointer / typed-nil pointer / untyped nil, descriptor OBJECT held: its own or one shared with other names) x current ServiceName of every held descriptor object). Two spaces per carrier. FULL-POOL: 6 registration ops per pool descriptor (handler = pointer implementing the interface | typed-nil pointer of that type | untyped nil | pointer of another service's type | typed-nil pointer of another service's type | value of a pointer-receiver type; 6 descriptors on HandlerMap, 4 on the transports), the read ops (query x every pool name, an unknown name and the near misses of every pool name: leading, trailing, doubled, inner slash, proper prefix, proper suffix, extension, empty; ForEach on HandlerMap; GetServiceInfo) and 10 mutate ops (the caller edits in place EVERY result GetServiceInfo has handed out so far on the path, one op per kind of edit: 6 on the Methods slices incl. their spare capacity, 3 on the map, 1 overwriting everything reachable), explored to closure; around EVERY state reached, every enabled descriptor-edit op is swept (applied once, followed by the full state oracle, target not expanded): share-<kind>:<src>><new> = the descriptor object registered under <src> gets ServiceName <new> and is registered again with a new handler (kinds: see descriptor_edit_handler_kinds; src, new over all pool names of the carrier, new = src and new = an already registered name included), rename:<src>><new> = that object gets ServiceName <new> and nothing is registered (new over all pool names and a name outside the pool). SUB-POOL (3 descriptors with pairwise different method sets and metadata): registration ops, share ops (src x new over the 3 names), rename ops (src x the 3 names and a name outside the pool), query / ForEach / info ops and mutate ops (quick: the edit overwriting everything reachable; thorough: all 10) explored to closure, i.e. every reachable combination of sharing, current names and handler kinds is a state and gets every op. Each transition = fresh real object + fresh real grpc.Server, replay of the shortest path on both (the SAME descriptor objects are registered with, and renamed under, both) + the op, then the full state oracle (every read; lookup must return the descriptor object and handler registered under the name whatever the descriptor is called now; ForEach must visit the multiset of registered (descriptor, handler) pairs; GetServiceInfo compared with a fresh GetServiceInfo of that grpc.Server, whose handed-out results received the same edits). A mutate op is a differential probe made at every reached state: all reads before, the edit, all reads after; it must be a self loop. A transition is non-trivial when it is a registration attempt, an enabled descriptor-edit op (its source is registered, so it renames a descriptor the registry holds), a read in a non-empty registry, or a mutate op that wrote at least one slice element or map entry; distinct by (carrier, space, state, op). In addition every sequence over (registration ops + 'mutate:scribble') up to registration_sequence_length is replayed without state caching, and so is every sequence over the sub-pool alphabet (registration + share + rename ops + 'mutate:scribble') up to length 3 (thorough: also length 4 with handler kinds reg / ill-other) that contains a descriptor-edit op and in which every descriptor-edit op has a source.",
+		"rule":                              "HANDLER CONFORMANCE (see handler_conformance): every (service interface, handler value) pair of conform.go as a registration attempt conf(I,H):<name>, accepted iff the Go type assertion h.(I) holds and the name is free -- the full matrix x every pool descriptor x 4 prefix states with the full state oracle, the representatives (one pair per way of not implementing, one per interface and per way of implementing) swept around the full-pool BFS states and used as the refused registration of the liveness probes, and every two attempts in sequence; every such case is non-trivial (a registration attempt; distinct by carrier, prefix, op). LIVENESS PROBES (child processes, see liveness_probes): every (carrier, prefix state of <= max_prefix_registrations registrations, registration attempt R that is refused there, first operation F after R); non-trivial when R really panicked, the panic was recovered and F was then made as the first call on the object (distinct by carrier, state, R, F); F and the reads after it must return and answer as the model says. THEN BFS over (carrier x set of (registered name, kind of handler held: pointer / typed-nil pointer / untyped nil, descriptor OBJECT held: its own or one shared with other names) x current ServiceName of every held descriptor object). Two spaces per carrier. FULL-POOL: 6 registration ops per pool descriptor (handler = pointer implementing the interface | typed-nil pointer of that type | untyped nil | pointer of another service's type | typed-nil pointer of another service's type | value of a pointer-receiver type; 6 descriptors on HandlerMap, 4 on the transports), the read ops (query x every pool name, an unknown name and the near misses of every pool name: leading, trailing, doubled, inner slash, proper prefix, proper suffix, extension, empty; ForEach on HandlerMap; GetServiceInfo) and 10 mutate ops (the caller edits in place EVERY result GetServiceInfo has handed out so far on the path, one op per kind of edit: 6 on the Methods slices incl. their spare capacity, 3 on the map, 1 overwriting everything reachable), explored to closure; around EVERY state reached, every enabled descriptor-edit op is swept (applied once, followed by the full state oracle, target not expanded): share-<kind>:<src>><new> = the descriptor object registered under <src> gets ServiceName <new> and is registered again with a new handler (kinds: see descriptor_edit_handler_kinds; src, new over all pool names of the carrier, new = src and new = an already registered name included), rename:<src>><new> = that object gets ServiceName <new> and nothing is registered (new over all pool names and a name outside the pool). SUB-POOL (3 descriptors with pairwise different method sets and metadata): registration ops, share ops (src x new over the 3 names), rename ops (src x the 3 names and a name outside the pool), query / ForEach / info ops and mutate ops (quick: the edit overwriting everything reachable; thorough: all 10) explored to closure, i.e. every reachable combination of sharing, current names and handler kinds is a state and gets every op. Each transition = fresh real object + fresh real grpc.Server, replay of the shortest path on both (the SAME descriptor objects are registered with, and renamed under, both) + the op, then the full state oracle (every read; lookup must return the descriptor object and handler registered under the name whatever the descriptor is called now; ForEach must visit the multiset of registered (descriptor, handler) pairs; GetServiceInfo compared with a fresh GetServiceInfo of that grpc.Server, whose handed-out results received the same edits). A mutate op is a differential probe made at every reached state: all reads before, the edit, all reads after; it must be a self loop. A transition is non-trivial when it is a registration attempt, an enabled descriptor-edit op (its source is registered, so it renames a descriptor the registry holds), a read in a non-empty registry, or a mutate op that wrote at least one slice element or map entry; distinct by (carrier, space, state, op). In addition every sequence over (registration ops + 'mutate:scribble') up to registration_sequence_length is replayed without state caching, and so is every sequence over the sub-pool alphabet (registration + share + rename ops + 'mutate:scribble') up to length 3 (thorough: also length 4 with handler kinds reg / ill-other) that contains a descriptor-edit op and in which every descriptor-edit op has a source.",
 		"samples":                           samples,
 		"exhaustive":                        frontierEmpty && probesSkipped == 0 && len(hungList) == 0,
 	}, []string{
@@ -2328,6 +2426,8 @@ func main() {
 		"pool of 4 descriptors (0-2 unary, 0-2 streams covering all four flag pairs, nil/string/struct Metadata) + on HandlerMap a 5th whose ServiceName is \"/p.Unary1\" next to p.Unary1 and a 6th, p.Dup, with repeated method names (a unary method listed twice, a stream of the same name as a unary method, a stream listed twice) (such names cannot be addressed through the transports' /service/method paths, so it is not registered there) + 1 unknown name + near-miss names",
 		"on the two transports, lookup is observed by dispatching every method of the service (in-process Invoke/NewStream; HTTP ServeHTTP on a recorder) and identifying descriptor and handler instance that ran",
 		"untyped nil handler: " + nilHandlerRule,
+		"'a handler that does not implement the service's interface': decided by the language itself, the type assertion h.(I) evaluated by the Go runtime for the interface in ServiceDesc.HandlerType (interfaces and handler types are declared statically in conform.go and in the package verif/seq/c15/alien; package reflect, which the library and grpc.Server use for the same question, is used only to NAME what is wrong with a pair). A handler that implements the interface, under a fresh name, is a registration like any other (grpc.Server accepts it; it is registered there as well), whatever its shape: superset of the methods, value or pointer receivers, typed-nil pointer, promoted methods, non-struct type. A wrongly accepted pair is named after the most conspicuous thing wrong with it (lacks a method > pointer-receiver method on a value > field instead of method > name differs in case > unexported method > signature: arity > number of results > variadic > parameter type > result type); a wrongly refused one after the handler value. On a path with a conformance op only the first op that shows a problem is reported, with the reads made after it.",
+		"the pool descriptors of the other dimensions all have a one-method service interface, and their ill-typed handlers (another service's type, a value of a pointer-receiver type) fail it by not having a method of that NAME; the conformance ops are what varies the relation. They are not crossed to closure with the descriptor-edit ops (share-* of a descriptor registered by a conformance op is not in the grammar).",
 		"soundness of the mutate ops: they are probes, not part of the state key. At every reached state each kind of edit is applied to all results handed out on the shortest path to it (these include results obtained before and after every registration of the path, the first and later ones) and every read is repeated at once, so an effect that is visible to any read in the state where the edit is made is found for every state and kind. An effect that stays invisible to all reads in that state and only surfaces after further registrations is covered up to the length of the uncached sequences only (edit 'scribble', which overwrites everything reachable from the results).",
 		"descriptor re-use: what is quantified over is the ServiceName of a descriptor object the registry holds (the one field the registry keys on); the caller may register the same object again under the new name, or only rename it. A *grpc.Server reads the descriptor at registration time, so both are fine there and the reference server, driven with the same objects at the same moments, defines the expected service info. Soundness of the extended state key: future behaviour of the registry can depend on (a) which names are registered, (b) the handler value held for each (abstracted to its kind; identities are checked by the oracle), (c) which descriptor object each entry holds, (d) the contents of those objects. Nothing is ever unregistered and a fresh object is always registered first under its pool name, so a held object is identified by the pool entry it was built from ('<origin' in the key names the object; entries with the same origin share it), and the only content that varies is its current ServiceName ('origin->current' in the key). Two paths with the same key therefore hold isomorphic object graphs; that handler identities and the order of the ops do not matter beyond that is what the uncached sequences check. In the sub-pool space this key is explored to closure; in the full-pool space the descriptor-edit ops are swept one step deep around every state (crossing them to closure over 6 names is not affordable).",
 		"Go's map iteration order cannot be controlled: when two different held descriptor objects carry the same name at the moment of a GetServiceInfo (two registrations with different contents could compete for one name of the result), the read is repeated info_repeats_on_name_clash times and every result is checked, so that the verdict does not depend on the order met first",
